@@ -107,24 +107,21 @@ theorem amps_pre (m : Int) (c d1 : Nat) (X : Bytes) : ampsStartRefs (wbPre m c d
     · rfl
 
 theorem wb_amps (m : Int) : ∀ (s : Bytes) (skip chars : Nat),
-    ((goHtmlEscape s).take skip).all isCont = true →
-    ampsStartRefs (wordBreaksGo m skip chars false (goHtmlEscape s)) = true := by
+    ((htmlEscape s).take skip).all isCont = true →
+    ampsStartRefs (wordBreaksGo m skip chars false (htmlEscape s)) = true := by
   intro s
   induction s with
-  | nil => intro skip chars _; cases skip <;> simp [goHtmlEscape, wordBreaksGo, ampsStartRefs]
+  | nil => intro skip chars _; cases skip <;> simp [htmlEscape, wordBreaksGo, ampsStartRefs]
   | cons b r ih =>
     intro skip chars hk
-    rw [goHtmlEscape] at hk ⊢
+    rw [htmlEscape] at hk ⊢
     cases skip with
     | succ k =>
       -- the byte is a continuation byte, hence copied
-      have hpiece : goHtmlPiece b = [b] ∧ isCont b = true := by
-        rcases goHtmlPiece_cases b with ⟨_, hp⟩ | ⟨_, hp⟩
-        · rw [hp] at hk; simp [isCont] at hk
-        · rw [hp] at hk ⊢
-          rcases htmlPiece_cases b with ⟨_, h⟩ | ⟨_, h⟩ | ⟨_, h⟩ | ⟨_, h⟩ | ⟨_, h⟩ | ⟨_, _, _, _, _, h⟩ <;>
-            rw [h] at hk ⊢ <;> simp [isCont] at hk ⊢
-          exact hk.1
+      have hpiece : htmlPiece b = [b] ∧ isCont b = true := by
+        rcases htmlPiece_cases b with ⟨_, h⟩ | ⟨_, h⟩ | ⟨_, h⟩ | ⟨_, h⟩ | ⟨_, h⟩ | ⟨_, _, _, _, _, h⟩ <;>
+          rw [h] at hk ⊢ <;> simp [isCont] at hk ⊢
+        exact hk.1
       rw [hpiece.1] at hk ⊢
       have hb38 : b ≠ 38 := by rintro rfl; simp [isCont] at hpiece
       simp only [List.singleton_append, wordBreaksGo]
@@ -133,56 +130,43 @@ theorem wb_amps (m : Int) : ∀ (s : Bytes) (skip chars : Nat),
       simp only [List.singleton_append, List.take_succ_cons, List.all_cons, Bool.and_eq_true] at hk
       exact hk.2
     | zero =>
-      rcases goHtmlPiece_cases b with ⟨_, hp⟩ | ⟨_, hp⟩
-      · -- NUL -> EF BF BD: one three-byte rune
-        rw [hp]
-        have hd : decodeRune (239 :: 191 :: 189 :: goHtmlEscape r) = (65533, 3) := by
-          simp [decodeRune, accept3, isCont]
-        simp only [List.cons_append, List.nil_append]
-        rw [wb_step0, amps_pre, hd]
-        simp only [wordBreaksGo, ampsStartRefs]
-        simp [ih 0 _ (by simp)]
-      · rw [hp]
-        rcases htmlPiece_cases b with ⟨_, h⟩ | ⟨_, h⟩ | ⟨_, h⟩ | ⟨_, h⟩ | ⟨_, h⟩ | ⟨_, _, h38, _, _, h⟩ <;> rw [h]
-        case inr.inr.inr.inr.inr =>
-          simp only [List.singleton_append]
-          rw [wb_step0, amps_pre, amps_cons_ne _ _ h38]
-          by_cases hlt : b < 0x80
-          · rw [decodeRune_ascii b _ hlt]
-            have : (b.toNat == 38) = false := by
-              apply beq_false_of_ne
-              intro e; exact h38 (UInt8.toNat_inj.1 (by simpa using e))
-            simp only [this, Bool.and_false]
-            exact ih 0 _ (by simp)
-          · obtain ⟨h128, _, hcont⟩ := decodeRune_high b (goHtmlEscape r) hlt
-            have : ((decodeRune (b :: goHtmlEscape r)).1 == 38) = false := by
-              apply beq_false_of_ne; omega
-            simp only [this, Bool.and_false]
-            exact ih _ _ hcont
-        all_goals
-          simp only [List.cons_append, List.nil_append]
-          rw [wb_step0, amps_pre]
-          simp [wordBreaksGo, decodeRune, ampsStartRefs, matchRef, htmlRefs]
+      rcases htmlPiece_cases b with ⟨_, h⟩ | ⟨_, h⟩ | ⟨_, h⟩ | ⟨_, h⟩ | ⟨_, h⟩ | ⟨_, _, h38, _, _, h⟩ <;> rw [h]
+      case inr.inr.inr.inr.inr =>
+        simp only [List.singleton_append]
+        rw [wb_step0, amps_pre, amps_cons_ne _ _ h38]
+        by_cases hlt : b < 0x80
+        · rw [decodeRune_ascii b _ hlt]
+          have : (b.toNat == 38) = false := by
+            apply beq_false_of_ne
+            intro e; exact h38 (UInt8.toNat_inj.1 (by simpa using e))
+          simp only [this, Bool.and_false]
           exact ih 0 _ (by simp)
+        · obtain ⟨h128, _, hcont⟩ := decodeRune_high b (htmlEscape r) hlt
+          have : ((decodeRune (b :: htmlEscape r)).1 == 38) = false := by
+            apply beq_false_of_ne; omega
+          simp only [this, Bool.and_false]
+          exact ih _ _ hcont
+      all_goals
+        simp only [List.cons_append, List.nil_append]
+        rw [wb_step0, amps_pre]
+        simp [wordBreaksGo, decodeRune, ampsStartRefs, matchRef, htmlRefs]
+        exact ih 0 _ (by simp)
 
 /-! ### changeNewlineToBr -/
 
-theorem filter_notNL_goHtmlEscape (s : Bytes) :
-    (goHtmlEscape s).filter notNL = goHtmlEscape (s.filter notNL) := by
+theorem filter_notNL_htmlEscape (s : Bytes) :
+    (htmlEscape s).filter notNL = htmlEscape (s.filter notNL) := by
   induction s with
   | nil => rfl
   | cons b r ih =>
-    rw [goHtmlEscape, List.filter_append, ih]
+    rw [htmlEscape, List.filter_append, ih]
     by_cases hn : notNL b = true
-    · have : (goHtmlPiece b).filter notNL = goHtmlPiece b := by
-        rcases goHtmlPiece_cases b with ⟨_, hp⟩ | ⟨_, hp⟩
-        · rw [hp]; decide
-        · rw [hp]
-          rcases htmlPiece_cases b with ⟨_, h⟩ | ⟨_, h⟩ | ⟨_, h⟩ | ⟨_, h⟩ | ⟨_, h⟩ | ⟨_, _, _, _, _, h⟩ <;> rw [h]
-          all_goals first
-            | decide
-            | simp [hn]
-      rw [this, List.filter_cons, if_pos hn, goHtmlEscape]
+    · have : (htmlPiece b).filter notNL = htmlPiece b := by
+        rcases htmlPiece_cases b with ⟨_, h⟩ | ⟨_, h⟩ | ⟨_, h⟩ | ⟨_, h⟩ | ⟨_, h⟩ | ⟨_, _, _, _, _, h⟩ <;> rw [h]
+        all_goals first
+          | decide
+          | simp [hn]
+      rw [this, List.filter_cons, if_pos hn, htmlEscape]
     · have hb : b = 13 ∨ b = 10 := by
         simp only [notNL, Bool.and_eq_true, bne_iff_ne, ne_eq] at hn
         by_cases h13 : b = 13
@@ -190,29 +174,26 @@ theorem filter_notNL_goHtmlEscape (s : Bytes) :
         · by_cases h10 : b = 10
           · exact Or.inr h10
           · exact absurd ⟨h13, h10⟩ hn
-      have hp : goHtmlPiece b = [b] := by rcases hb with rfl | rfl <;> decide
+      have hp : htmlPiece b = [b] := by rcases hb with rfl | rfl <;> decide
       rw [hp, List.filter_cons, if_neg hn]
       simp [hn]
 
-theorem nl_amps : ∀ (s : Bytes) (p : Bool), ampsStartRefs (nlToBrGo p (goHtmlEscape s)) = true := by
+theorem nl_amps : ∀ (s : Bytes) (p : Bool), ampsStartRefs (nlToBrGo p (htmlEscape s)) = true := by
   intro s
   induction s with
-  | nil => intro p; simp [goHtmlEscape, nlToBrGo, ampsStartRefs]
+  | nil => intro p; simp [htmlEscape, nlToBrGo, ampsStartRefs]
   | cons b r ih =>
     intro p
-    rw [goHtmlEscape]
-    rcases goHtmlPiece_cases b with ⟨_, hp⟩ | ⟨_, hp⟩
-    · rw [hp]; simp [nlToBrGo, ampsStartRefs, ih]
-    · rw [hp]
-      rcases htmlPiece_cases b with ⟨_, h⟩ | ⟨_, h⟩ | ⟨_, h⟩ | ⟨_, h⟩ | ⟨_, h⟩ | ⟨_, _, h38, _, _, h⟩ <;> rw [h]
-      case inr.inr.inr.inr.inr =>
-        simp only [List.singleton_append]
-        rw [nlToBrGo]
-        by_cases h13 : b = 13
-        · subst h13; simp [amps_br, ih]
-        · by_cases h10 : b = 10
-          · subst h10; cases p <;> simp [amps_br, ih]
-          · simp [h13, h10, amps_cons_ne _ _ h38, ih]
-      all_goals simp [nlToBrGo, ampsStartRefs, matchRef, htmlRefs, ih]
+    rw [htmlEscape]
+    rcases htmlPiece_cases b with ⟨_, h⟩ | ⟨_, h⟩ | ⟨_, h⟩ | ⟨_, h⟩ | ⟨_, h⟩ | ⟨_, _, h38, _, _, h⟩ <;> rw [h]
+    case inr.inr.inr.inr.inr =>
+      simp only [List.singleton_append]
+      rw [nlToBrGo]
+      by_cases h13 : b = 13
+      · subst h13; simp [amps_br, ih]
+      · by_cases h10 : b = 10
+        · subst h10; cases p <;> simp [amps_br, ih]
+        · simp [h13, h10, amps_cons_ne _ _ h38, ih]
+    all_goals simp [nlToBrGo, ampsStartRefs, matchRef, htmlRefs, ih]
 
 end SoyVerif.Lemmas.EscapeBreaks
